@@ -184,9 +184,17 @@ def run(ctx: Ctx):
         if why:
             ctx.report("C18 oracle: " + why + f" (flags {flags})", {"kind": "session", "source": src, "flags": flags, "output": o["tail"]}, tag=classify_session(src, flags, o))
     ctx.coverage["oracle"]["sessions"] = len(items)
+    # the edits computed for one file never depend on another file: the same module under several names in one session
+    from .. import twins
+    NESTED = ("from inline_snapshot import snapshot\n\n\ndef test_n1():\n    assert [0, 7] == snapshot([snapshot(), 0])\n\n\n"
+              "def test_n2():\n    assert {'a': [1, 2], 'b': 3} == snapshot({'a': [snapshot(5), 9, 2], 'c': snapshot(1)})\n")
+    twins.check(ctx, "C18", [NESTED] + [s_ for s_, _ in items[:2 if not ctx.thorough else 12]])
 
 
 def replay(ctx: Ctx, data):
+    if isinstance(data.get("case"), dict) and data["case"].get("kind") == "twins":
+        from .. import twins
+        return twins.replay(data["case"])
     c = data["case"]
     if c.get("kind") == "session":
         o = run_session((c["source"], c["flags"]))
